@@ -2181,28 +2181,29 @@ func (p *Parser) parseStatement() (ast.Statement, error) {
 			return ast.YieldStatement{Value: value}, nil
 		}
 
-		// Speculative parse for index assignment: identifier[index] = expr
-		// If the next token is LBRACKET, try to parse an l-value chain followed by "=".
-		// On failure (parse error or no "=" after l-value), restore position and fall
-		// through to other statement paths (bare assignment, expression statement).
-		if p.peek(1).Type == LBRACKET {
-			savedPos := p.position
+		// Index assignment: identifier[index] = expr
+		// If the next token is LBRACKET, look ahead (matching brackets only) for an
+		// l-value chain followed by "=". Otherwise fall through to the other
+		// statement paths (bare assignment, expression statement). The index
+		// expressions are deliberately not parsed speculatively: parsing them,
+		// backtracking and parsing them again doubled the work at every level
+		// of `a[async { a[async { ...`, so a few hundred bytes never finished.
+		if p.peek(1).Type == LBRACKET && p.isIndexAssignment() {
 			name := p.current().Literal
 			p.advance() // consume identifier
 			base := ast.VariableExpr{Name: name}
 			lvalue, err := p.parseLValueExpr(base)
 			if err != nil {
-				p.position = savedPos
-			} else if p.check(EQUALS) {
-				p.advance() // consume =
-				value, valErr := p.parseExpr()
-				if valErr != nil {
-					return nil, valErr
-				}
-				return ast.IndexAssignStatement{Target: lvalue, Value: value}, nil
-			} else {
-				p.position = savedPos
+				return nil, err
 			}
+			if err := p.expect(EQUALS); err != nil {
+				return nil, err
+			}
+			value, valErr := p.parseExpr()
+			if valErr != nil {
+				return nil, valErr
+			}
+			return ast.IndexAssignStatement{Target: lvalue, Value: value}, nil
 		}
 
 		// Check for bare assignment (reassignment): identifier = expr
@@ -3247,6 +3248,43 @@ func (p *Parser) parseLValueExpr(base ast.Expr) (ast.Expr, error) {
 		}
 	}
 	return expr, nil
+}
+
+// isIndexAssignment reports whether the tokens at the cursor have the shape
+// `identifier ( "[" ... "]" | "." identifier )* "="` with at least one such
+// step. Only brackets are matched; nothing is parsed.
+func (p *Parser) isIndexAssignment() bool {
+	i := p.position + 1 // past the identifier
+	for i < len(p.tokens) {
+		switch p.tokens[i].Type {
+		case LBRACKET:
+			depth := 0
+			for ; i < len(p.tokens); i++ {
+				switch p.tokens[i].Type {
+				case LBRACKET, LPAREN, LBRACE:
+					depth++
+				case RBRACKET, RPAREN, RBRACE:
+					depth--
+				case EOF:
+					return false
+				}
+				if depth == 0 {
+					break
+				}
+			}
+			i++ // past the closing bracket
+		case DOT:
+			if i+1 >= len(p.tokens) || p.tokens[i+1].Type != IDENT {
+				return false
+			}
+			i += 2
+		case EQUALS:
+			return true
+		default:
+			return false
+		}
+	}
+	return false
 }
 
 // parseArrayIndex parses array indexing: array[index] or array[index][index2]
